@@ -162,6 +162,9 @@ class RuntimeAssertionFeedback(AssertionFeedback):
         fields['context_message'] = context_message
         fields['assertion_message'] = assertion_message
         fields['explanation'] = explanation
+        # These presentation options have been consumed; they are not parameters of any condition()
+        for presentation_option in ('context', 'assertion', 'explanation'):
+            kwargs.pop(presentation_option, None)
 
         # An operand that is itself an error can never satisfy the assertion
         if left.is_error or right.is_error:
